@@ -88,6 +88,19 @@ Example c19_nonvacuous :
    end).
 Proof. vm_compute. repeat split. Qed.
 
+
+(* ------------------------------------------------------------------ tie to the source by translation *)
+(** The Rust functions below are translated to Gallina from the repository's CURRENT sources on every run
+    (tools/rs2coq.py -> theories/Gen.v); they equal the model's functions for all arguments, so the theorems above
+    hold for what the code says now. A change of one of these functions that is not an equivalent rewrite breaks the
+    proof obligation here. *)
+From Hoot Require Import Gen.
+From Hoot.proofs Require Import Gen_equiv.
+Theorem c19_code_max_chunk_fit : forall a m, gen_max_chunk_fit a m = max_chunk_fit a m.
+Proof. exact gen_max_chunk_fit_eq. Qed.
+Theorem c19_code_calculate_max_input : forall n, gen_calculate_max_input n = calculate_max_input n.
+Proof. exact gen_calculate_max_input_eq. Qed.
+
 Print Assumptions c19_consumed.
 Print Assumptions c19_progress.
 Print Assumptions c19_progress_call.
@@ -98,3 +111,5 @@ Print Assumptions c19_not_below_max.
 Print Assumptions c19_loop.
 Print Assumptions c19_loop_sized.
 Print Assumptions c19_nonvacuous.
+Print Assumptions c19_code_max_chunk_fit.
+Print Assumptions c19_code_calculate_max_input.
